@@ -231,7 +231,7 @@ orientation (and the INVALID test) come from the first segment at that y (`close
 C04): per segment.  Both variants are exercised against the real code by the C01 stream; they
 coincide whenever all segments of one y have the same orientation.  Flip this constant together
 with the application of that fix to /repo. -/
-def tetrisPerSegmentOrientation : Bool := false
+def tetrisPerSegmentOrientation : Bool := true
 
 /-- `TetrisLegalizer::attemptPlacement(cell, y)`; `none` = `(false, 0)`.
 (After fix c01-tetris-turned: the stored sizes are placed sizes, no swap.) -/
